@@ -19,7 +19,8 @@ EXPLANATION = (
     "lets non-retryable classes propagate; (R4) exists() falls back to a prefix listing only for keys ending in '/'; (R5) "
     "listing confinement: the prefix handed to list_objects_v2 ends at a directory boundary on every path; (R6) the range "
     "reader requests only in-range bytes (dominance of the pos < size guard; Range bounds from min(pos + want, size) - 1), "
-    "and a negative seek / unknown whence raise.")
+    "and a negative seek / unknown whence raise."
+    ' Also: (R7) backends keep no mutable per-instance state; an error is permanent only by membership in PERMANENT_S3_ERROR_CODES; hand-written page loops follow NextContinuationToken; seek uses plain arithmetic.')
 NOT_DECIDED = "operation-sequence equivalence of the two backends at run time; S3's own consistency"
 
 SB = "storage_backend"
